@@ -34,6 +34,7 @@ import (
 	"go/token"
 	"os"
 	"path/filepath"
+	"regexp"
 	"sort"
 	"strconv"
 	"strings"
@@ -55,6 +56,8 @@ type pkgInfo struct {
 	embeds  map[string][]string // struct -> embedded struct names
 	regs    []registration
 	ctx     *substCtx // call-site context while a router's saving path is analysed
+	tags    map[string]map[string]string // struct -> field -> struct tag
+	mapFull map[string]bool              // from the typed pass: the keys of a package level map cover its key type
 }
 
 // substCtx: how the parameters of the function under analysis map to argument expressions of its caller
@@ -73,7 +76,8 @@ type registration struct {
 
 func loadPkg(dir string) *pkgInfo {
 	p := &pkgInfo{fset: token.NewFileSet(), files: map[string]*ast.File{}, consts: map[string]string{}, slices: map[string][]string{},
-		mapVals: map[string][]string{}, methods: map[string]map[string]*ast.FuncDecl{}, recvVar: map[*ast.FuncDecl]string{}, embeds: map[string][]string{}}
+		mapVals: map[string][]string{}, methods: map[string]map[string]*ast.FuncDecl{}, recvVar: map[*ast.FuncDecl]string{}, embeds: map[string][]string{},
+		tags: map[string]map[string]string{}, mapFull: map[string]bool{}}
 	ents, err := os.ReadDir(dir)
 	if err != nil {
 		fatal("cannot read %s: %v", dir, err)
@@ -192,6 +196,16 @@ func loadPkg(dir string) *pkgInfo {
 									p.embeds[ts.Name.Name] = append(p.embeds[ts.Name.Name], id.Name)
 								}
 							}
+							for _, fn := range f.Names {
+								if p.tags[ts.Name.Name] == nil {
+									p.tags[ts.Name.Name] = map[string]string{}
+								}
+								if f.Tag != nil {
+									p.tags[ts.Name.Name][fn.Name] = f.Tag.Value
+								} else {
+									p.tags[ts.Name.Name][fn.Name] = ""
+								}
+							}
 						}
 					}
 				}
@@ -291,12 +305,141 @@ func (p *pkgInfo) findMethod(t, name string) (*ast.FuncDecl, string) {
 type catExpr struct{ Kind, Val string } // Kind: CLit | CField | CExpr
 
 type row struct {
-	Kind, Type, Struct  string
-	Saves, Declares     bool
-	SaveNames           []string
-	DeclNames           []string
-	SaveCats, DeclCats  []catExpr
-	SaveGuards          []string
+	Kind, Type, Struct     string
+	Saves, Declares        bool
+	SaveNames              []string
+	DeclNames              []string
+	SaveCats, DeclCats     []catExpr
+	SaveGuards, DeclGuards [][]string // one conjunct list per saving call / per declaration
+	NameRequired           bool       // the declared name member carries validate:"required"
+	SitesSyn, SitesTyped   []string   // what this (syntactic) pass visited / what the typed pass says is reachable
+}
+
+func addGuard(gs [][]string, g []string) [][]string {
+	k := strings.Join(g, " && ")
+	for _, x := range gs {
+		if strings.Join(x, " && ") == k {
+			return gs
+		}
+	}
+	return append(gs, append([]string{}, g...))
+}
+
+// the conjuncts of a condition: a && b && c -> [a, b, c]
+func (p *pkgInfo) conjuncts(e ast.Expr) []string {
+	if pe, ok := e.(*ast.ParenExpr); ok {
+		return p.conjuncts(pe.X)
+	}
+	if be, ok := e.(*ast.BinaryExpr); ok && be.Op == token.LAND {
+		return append(p.conjuncts(be.X), p.conjuncts(be.Y)...)
+	}
+	return []string{p.src(e)}
+}
+
+func (p *pkgInfo) site(kind string, pos token.Pos) string {
+	ps := p.fset.Position(pos)
+	return fmt.Sprintf("%s:%s:%d", kind, filepath.Base(ps.Filename), ps.Line)
+}
+
+func containsNode(root, target ast.Node) bool {
+	if root == nil {
+		return false
+	}
+	found := false
+	ast.Inspect(root, func(x ast.Node) bool {
+		if x == target {
+			found = true
+		}
+		return !found
+	})
+	return found
+}
+
+func endsInReturn(b *ast.BlockStmt) bool {
+	if b == nil || len(b.List) == 0 {
+		return false
+	}
+	_, ok := b.List[len(b.List)-1].(*ast.ReturnStmt)
+	return ok
+}
+
+// guardsTo: the conditions under which control reaches `target` inside the statement list: conditions of the
+// enclosing if statements (negated for else branches), and the negated conditions of earlier
+// `if c { ...; return }` statements of the same list
+func (p *pkgInfo) guardsTo(stmts []ast.Stmt, target ast.Node, guards []string) []string {
+	for _, st := range stmts {
+		if !containsNode(st, target) {
+			if is, ok := st.(*ast.IfStmt); ok && is.Else == nil && endsInReturn(is.Body) {
+				guards = append(append([]string{}, guards...), "!("+p.src(is.Cond)+")")
+			}
+			continue
+		}
+		switch t := st.(type) {
+		case *ast.IfStmt:
+			if containsNode(t.Body, target) {
+				return p.guardsTo(t.Body.List, target, append(append([]string{}, guards...), p.conjuncts(t.Cond)...))
+			}
+			if t.Else != nil && containsNode(t.Else, target) {
+				g := append(append([]string{}, guards...), "!("+p.src(t.Cond)+")")
+				if eb, ok := t.Else.(*ast.BlockStmt); ok {
+					return p.guardsTo(eb.List, target, g)
+				}
+				return p.guardsTo([]ast.Stmt{t.Else}, target, g)
+			}
+			return guards
+		case *ast.BlockStmt:
+			return p.guardsTo(t.List, target, guards)
+		case *ast.ForStmt:
+			return p.guardsTo(t.Body.List, target, append(append([]string{}, guards...), "in-loop"))
+		case *ast.RangeStmt:
+			return p.guardsTo(t.Body.List, target, append(append([]string{}, guards...), "in-loop"))
+		case *ast.SwitchStmt:
+			for _, cc := range t.Body.List {
+				if c, ok := cc.(*ast.CaseClause); ok && containsNode(c, target) {
+					return p.guardsTo(c.Body, target, append(append([]string{}, guards...), "in-case"))
+				}
+			}
+			return guards
+		case *ast.TypeSwitchStmt:
+			for _, cc := range t.Body.List {
+				if c, ok := cc.(*ast.CaseClause); ok && containsNode(c, target) {
+					return p.guardsTo(c.Body, target, append(append([]string{}, guards...), "in-case"))
+				}
+			}
+			return guards
+		default:
+			return guards
+		}
+	}
+	return guards
+}
+
+var nameNonEmpty1 = regexp.MustCompile(`^[A-Za-z_]\w*\.(\w+) != ""$`)
+var nameNonEmpty2 = regexp.MustCompile(`^!\([A-Za-z_]\w*\.(\w+) == ""\)$`)
+
+// normalise: the conjunct "<recv>.<name member> != """ is written NAME_NONEMPTY
+func (r *row) normaliseGuards() {
+	isName := func(f string) bool {
+		for _, n := range append(append([]string{}, r.SaveNames...), r.DeclNames...) {
+			if n == f {
+				return true
+			}
+		}
+		return false
+	}
+	norm := func(gs [][]string) {
+		for _, g := range gs {
+			for i, c := range g {
+				for _, re := range []*regexp.Regexp{nameNonEmpty1, nameNonEmpty2} {
+					if m := re.FindStringSubmatch(c); m != nil && isName(m[1]) {
+						g[i] = "NAME_NONEMPTY"
+					}
+				}
+			}
+		}
+	}
+	norm(r.SaveGuards)
+	norm(r.DeclGuards)
 }
 
 func addStr(xs []string, s string) []string {
@@ -382,6 +525,10 @@ func (p *pkgInfo) cats(e ast.Expr, fn *ast.FuncDecl, recv string, depth int) []c
 				var out []catExpr
 				for _, s := range vals {
 					out = addCat(out, catExpr{"CLit", s})
+				}
+				if !p.mapFull[id.Name] {
+					// the keys do not cover the key type: the index expression can yield the zero value
+					out = addCat(out, catExpr{"CLit", ""})
 				}
 				return out
 			}
@@ -650,7 +797,7 @@ func (p *pkgInfo) collectSaves(t string, fn *ast.FuncDecl, owner string, subst m
 				walk(s.Init, guards)
 			}
 			walk(s.Cond, guards)
-			g := append(append([]string{}, guards...), p.src(s.Cond))
+			g := append(append([]string{}, guards...), p.conjuncts(s.Cond)...)
 			walk(s.Body, g)
 			if s.Else != nil {
 				walk(s.Else, append(append([]string{}, guards...), "!("+p.src(s.Cond)+")"))
@@ -714,11 +861,22 @@ func (p *pkgInfo) recordSave(call *ast.CallExpr, fn *ast.FuncDecl, recv string, 
 	for _, c := range p.cats(catE, catFn, catRecv, 0) {
 		r.SaveCats = addCat(r.SaveCats, c)
 	}
-	g := strings.Join(guards, " && ")
-	if g == "" {
-		g = "true"
+	r.SaveGuards = addGuard(r.SaveGuards, guards)
+	if se, ok := call.Fun.(*ast.SelectorExpr); ok {
+		r.SitesSyn = addStr(r.SitesSyn, p.site("use", se.Sel.Pos()))
 	}
-	r.SaveGuards = addStr(r.SaveGuards, g)
+}
+
+// the doors inside the sink the syntactic pass understands (baseAction.saveResult): "door:<file>:<line>"
+func (p *pkgInfo) sinkDoors(sink *ast.FuncDecl) []string {
+	var out []string
+	ast.Inspect(sink.Body, func(x ast.Node) bool {
+		if se, ok := x.(*ast.SelectorExpr); ok && (se.Sel.Name == "SaveResult" || se.Sel.Name == "Save") {
+			out = addStr(out, p.site("door", se.Sel.Pos()))
+		}
+		return true
+	})
+	return out
 }
 
 func (p *pkgInfo) collectDecl(fn *ast.FuncDecl, r *row, ctor string) {
@@ -744,8 +902,17 @@ func (p *pkgInfo) collectDecl(fn *ast.FuncDecl, r *row, ctor string) {
 		for _, c := range p.cats(ce.Args[1], fn, recv, 0) {
 			r.DeclCats = addCat(r.DeclCats, c)
 		}
+		r.DeclGuards = addGuard(r.DeclGuards, p.guardsTo(fn.Body.List, ce, nil))
 		return true
 	})
+	// `if c { include(..) } else { include(..) }`: declared on both branches
+	if len(r.DeclGuards) == 2 {
+		a, b := r.DeclGuards[0], r.DeclGuards[1]
+		if len(a) > 0 && len(a) == len(b) && strings.Join(a[:len(a)-1], "&&") == strings.Join(b[:len(b)-1], "&&") &&
+			(b[len(b)-1] == "!("+a[len(a)-1]+")" || a[len(a)-1] == "!("+b[len(b)-1]+")") {
+			r.DeclGuards = [][]string{append([]string{}, a[:len(a)-1]...)}
+		}
+	}
 	if !found {
 		fatal("%s.%s does not call %s(name, categories): the declaration cannot be extracted", r.Struct, fn.Name.Name, ctor)
 	}
@@ -772,10 +939,13 @@ func coqBool(b bool) string {
 
 func (r row) coq() string {
 	cat := func(c catExpr) string { return c.Kind + " " + coqStr(c.Val) }
+	gl := func(g []string) string { return coqList(g, coqStr) }
 	return fmt.Sprintf("  {| ar_kind := %s; ar_type := %s; ar_struct := %s; ar_saves := %s; ar_declares := %s;\n"+
-		"     ar_save_names := %s; ar_decl_names := %s;\n     ar_save_cats := %s;\n     ar_decl_cats := %s;\n     ar_save_guards := %s |}",
+		"     ar_save_names := %s; ar_decl_names := %s;\n     ar_save_cats := %s;\n     ar_decl_cats := %s;\n"+
+		"     ar_save_guards := %s;\n     ar_decl_guards := %s; ar_name_required := %s;\n     ar_sites_syntactic := %s;\n     ar_sites_typed := %s |}",
 		coqStr(r.Kind), coqStr(r.Type), coqStr(r.Struct), coqBool(r.Saves), coqBool(r.Declares),
-		coqList(r.SaveNames, coqStr), coqList(r.DeclNames, coqStr), coqList(r.SaveCats, cat), coqList(r.DeclCats, cat), coqList(r.SaveGuards, coqStr))
+		coqList(r.SaveNames, coqStr), coqList(r.DeclNames, coqStr), coqList(r.SaveCats, cat), coqList(r.DeclCats, cat),
+		coqList(r.SaveGuards, gl), coqList(r.DeclGuards, gl), coqBool(r.NameRequired), coqList(r.SitesSyn, coqStr), coqList(r.SitesTyped, coqStr))
 }
 
 func main() {
